@@ -814,8 +814,10 @@ def main():
     if level == 'model_checking':
         cov['states'] = max(1, sum(kani_results[h]['vccs'] for h in kani_results))
         cov['transitions'] = max(1, sum(kani_results[h]['checks_total'] for h in kani_results))
-        cov['traces_validated_against_impl'] = len([v for v in violations if v[1] == ''])
-        cov['states_note'] = 'states = CBMC verification conditions generated over all harnesses; transitions = property checks evaluated'
+        cov['traces_validated_against_impl'] = len([v for v in violations if v[1] == '']) + len([d for d in discharged if d.get('engine') in ('kani', 'native')])
+        cov['states_note'] = ('states = CBMC verification conditions generated over all harnesses; transitions = property checks evaluated; '
+                              'there is no separate model: CBMC runs on the compiled real function and the native stand-ins execute it, so every discharged '
+                              'harness / native test (plus every replayed counterexample) is counted once under traces_validated_against_impl')
     ev = dict(property_id=prop, tier=a.tier, seed=seed, level=level, coverage=cov, assumptions=assumptions,
               wall_s=round(wall, 1), violations=len(violations))
     if not a.only:
